@@ -410,8 +410,11 @@ def r03_1_apply_protocol(ctx: Ctx) -> None:
         env = env_at(p)
         done_b = env.get(done_v)
         done_known_false = isinstance(done_b, ast.Constant) and done_b.value is False
-        not_done = has_fact(facts, "TRUTH", (done_v,), False)
-        is_done = has_fact(facts, "TRUTH", (done_v,), True)
+        # inserted by backtracking on this path?  Only backtrack_unary can say so: without a call nothing was inserted,
+        # with one its `done` result decides (whatever locals the answer is copied into afterwards)
+        not_done = has_fact(facts, "TRUTH", (done_v,), False) or not backs
+        is_done = bool(backs) and has_fact(facts, "TRUTH", (done_v,), True)
+        done_known_false = done_known_false or not backs
         problem = None
         if no_backtrack and backs:
             problem = "backtrack_unary is called although backtrack is false"
